@@ -135,6 +135,23 @@ Example C11_demo :
   run (Some (DeqOpts zero ["Finance"] ["Id"])) a nilfin = inl true.   (* both: Exclude decides *)
 Proof. vm_compute. repeat split; reflexivity. Qed.
 
+(* A field of a NAMED slice / map type with struct elements is compared like its literal-typed twin: the option names
+   of the element fields stay relative to the OUTER root ("NL.A"), a root-level name ("A") is unrelated. *)
+Example C11_named_collection_paths :
+  let n := GenDeq.root_node ("T", TStruct [("A", TScalar (SInt KInt32)); ("NL", TNamed "NLeaves" (TSlice Shapes.leaf));
+                                           ("NML", TNamed "NLeafMap" (TMap (TScalar SString) (TPtr Shapes.leaf)))]) in
+  let lf := fun z => VStruct [VInt z; VStr "s"; VBytes false [] 0; VFloat (Floats.norm64 0 0)] in
+  let a := VStruct [VInt 1; VSlice false [lf 5%Z] 0; VMap false [(VStr "k", VPtr (Some (lf 7%Z)))]] in
+  let b := VStruct [VInt 1; VSlice false [lf 6%Z] 0; VMap false [(VStr "k", VPtr (Some (lf 7%Z)))]] in     (* NL[0].A differs *)
+  let c := VStruct [VInt 1; VSlice false [lf 5%Z] 0; VMap false [(VStr "k", VPtr (Some (lf 8%Z)))]] in     (* NML["k"].A differs *)
+  let run := fun o x y => deep_equal_with_options n false (APtr (Some x)) (APtr (Some y)) o in
+  wfroot n = true /\ wtb n a = true /\
+  run (ex ["NL.A"]) a b = inl true /\ run (ex ["A"]) a b = inl false /\ run (ex ["NL"]) a b = inl true /\
+  run (ex ["NL.S"]) a b = inl false /\
+  run (fi ["NL"; "NL.A"]) a b = inl false /\ run (fi ["NL.A"]) a b = inl true /\ run (fi ["NL"; "A"]) a b = inl true /\
+  run (ex ["NML.A"]) a c = inl true /\ run (ex ["A"]) a c = inl false /\ run (fi ["NML"; "NML.A"]) a c = inl false.
+Proof. vm_compute. repeat split; reflexivity. Qed.
+
 (* the units of the stream are those of C05 (Example C05_stream_in_domain); here the multi-field structs *)
 Example C11_units_wellformed :
   forallb (fun b => wfroot (GenDeq.root_node ("M", b))) multi = true.
